@@ -6,6 +6,7 @@ usage: seed_eval.py <prop> <seed_dir> <name> [--check-props C01,C09]
  - stores everything under /verif/seeded/<name>/
 """
 import sys, os, subprocess, json, re, shutil, time
+HOME_DIR = os.environ.get("VERIF_HOME") or os.path.dirname(os.path.dirname(os.path.abspath(__file__)))  # the /verif checkout whose ./check is run (a `vp run` snapshot uses its own)
 ENV = dict(os.environ, GOFLAGS="-mod=mod", GOPROXY="off", GOSUMDB="off", GOTOOLCHAIN="local")
 def sh(cmd, cwd=None, timeout=3600):
     r = subprocess.run(cmd, shell=True, cwd=cwd, env=ENV, stdout=subprocess.PIPE, stderr=subprocess.STDOUT, text=True, timeout=timeout)
@@ -55,12 +56,12 @@ def main():
             assert out.strip() == "", "/repo not clean: " + out
         rc, out = sh("git -C %s apply %s" % (repo, patch))
         ENV["VERIF_REPO"] = repo
-        ENV["VERIF_EVIDENCE_DIR"] = "/verif/work/seed_evidence"
-        ENV["VERIF_REPLAY_DIR"] = "/verif/work/seed_replays"
+        ENV["VERIF_EVIDENCE_DIR"] = os.path.join(HOME_DIR, "work/seed_evidence")
+        ENV["VERIF_REPLAY_DIR"] = os.path.join(HOME_DIR, "work/seed_replays")
         try:
             for p in props:
                 t0 = time.time()
-                rc, out = sh("./check %s --tier quick" % p, cwd="/verif", timeout=3600)
+                rc, out = sh("./check %s --tier quick" % p, cwd=HOME_DIR, timeout=3600)
                 viol = [l for l in out.splitlines() if l.startswith("VIOLATION")]
                 meta["checks"][p] = {"exit": rc, "detected": rc == 1 and bool(viol), "violation_lines": [v[:300] for v in viol[:5]], "wall_s": round(time.time() - t0, 1),
                                      "other": [l[:300] for l in out.splitlines() if l.startswith(("ENGINE-MISMATCH", "PROBLEM"))][:5]}
